@@ -1,5 +1,25 @@
-(* Wire entry points of the C17 model (stub until the model is built). *)
-From Coq Require Import ZArith List.
-From SG Require Import Base.Sx.
+(* Wire entry points of the C17 model (matrix-entry cache of the density estimation). *)
+From Coq Require Import ZArith List Bool QArith Qcanon.
+From SG Require Import Base.Sx Base.QcUtil Model.Gram Model.DECache.
+Import ListNotations.
 Open Scope Z_scope.
-Definition entry_C17 (sub : Z) (a : sx) : sx := sx_err 0.
+
+Definition opt_bind {A B} (o : option A) (f : A -> option B) : option B := match o with Some a => f a | None => None end.
+Notation "'do' x <- o ; k" := (opt_bind o (fun x => k)) (at level 200, x name, o at level 100, k at level 200).
+Definition ret (o : option sx) : sx := match o with Some s => s | None => sx_err 2 end.
+
+Definition get_grids (s : sx) : option (list (list (list Qc))) :=
+  match s with Lv l => opt_all (map get_LLQc l) | _ => None end.
+
+Definition of_cache (c : cache) : sx :=
+  Lv (map (fun kv => Lv [of_LQc (fst (fst kv)); of_LQc (snd (fst kv)); of_Qc (snd kv)]) c).
+
+Definition entry_C17 (sub : Z) (a : sx) : sx :=
+  match sub, a with
+  (* history of grids built with one cache: (lambda grids) -> (matrices_with_cache matrices_without cache) *)
+  | 0, Lv [lam; grids] => ret (
+      do lam <- get_Qc lam; do grids <- get_grids grids;
+      let '(Gs, c) := history_cached [] lam grids in
+      Some (Lv [Lv (map of_LLQc Gs); Lv (map of_LLQc (history_plain lam grids)); of_cache c]))
+  | _, _ => sx_err 0
+  end.
